@@ -18,7 +18,7 @@ LEVEL_NOTE = ("Trusted: Lean kernel; harness + python watchdog (hang = no answer
 TECHNIQUE = "Lean 4 proof (total parser models, structural induction) + exhaustive-truncation / mutation differential run"
 LEAN_MODULES = ["Gv.Props.C03"]
 REQUIRED_THEOREMS = ["Gv.Props.C03." + n for n in [
-    "fasta_outcome_counterexample"]]
+    "fasta_outcome_counterexample", "fasta_outcome_partial", "fasta_outcome_fixed"]]
 PARTIAL = []            # filled below (formats without a model)
 TRUSTED = ["bufio.Reader / UTF-8 rune decoding (inputs with bytes >= 128 are judged by the predicate only)",
            "python watchdog: hang = no answer within TIMEOUT"]
